@@ -30,11 +30,12 @@ def lit (F : Fld K) : Nat → K
 def half (F : Fld K) : K := F.div F.one (F.lit 2)
 end Fld
 
-/-- `fabs`, `<`, `sqrt` on scalars, no laws -/
+/-- `fabs`, `<`, `sqrt`, `== 0` on scalars, no laws -/
 structure Cmp (K : Type) where
   abs : K → K
   lt : K → K → Bool
   sqrt : K → K
+  eqz : K → Bool
 
 /-- `cos`, `sin`, `asin`, `acos`, `atan2` and the constant `PI` converted to the scalar type; no laws -/
 structure Trig (K : Type) where
@@ -98,6 +99,19 @@ def cmp : Cmp Nat where
   abs a := if a ≤ P / 2 then a else (P - a % P) % P
   lt a b := decide (key a < key b)
   sqrt a := pow a ((P + 1) / 4)
+  eqz a := decide (a % P = 0)
+
+/-- stand-ins for the trigonometric functions over the prime field, the same ones as in `harness/c20.cpp`, so that the
+code paths that call `cos`/`sin`/`acos` can be executed exactly: the rational parametrisation
+`cos x = (1-x²)/(1+x²)`, `sin x = 2x/(1+x²)` of the unit circle (so `cos² + sin² = 1` whenever `1+x² ≠ 0`),
+`acos w = sqrt((1-w)/(1+w))` (a right inverse of `cos` when that root exists), `PI = 3`; `asin`, `atan2` unused -/
+def trig : Trig Nat where
+  cos x := fld.div (fld.sub 1 (fld.mul x x)) (fld.add 1 (fld.mul x x))
+  sin x := fld.div (fld.mul 2 x) (fld.add 1 (fld.mul x x))
+  asin x := x
+  acos w := cmp.sqrt (fld.div (fld.sub 1 w) (fld.add 1 w))
+  atan2 y _ := y
+  pi := 3
 end Fp
 
 end AslModel
